@@ -284,6 +284,153 @@ impl<C: Suite> Model for M12<C> {
     }
 }
 
+// ---- large (t, n): named subsets only -----------------------------------------------------------------
+
+#[derive(Copy, Clone, Debug, PartialEq, Eq, Hash, Serialize, Deserialize)]
+pub enum Named {
+    FirstT,
+    LastT,
+    FirstTReversed,
+    FirstTMinus1,
+    All,
+    /// every second share from the first, then filled up from the end until t are collected
+    Strided,
+    /// all shares followed by the first one again (a duplicate behind a complete set)
+    AllPlusDuplicate,
+}
+const NAMED: [Named; 7] = [Named::FirstT, Named::LastT, Named::FirstTReversed, Named::FirstTMinus1, Named::All, Named::Strided, Named::AllPlusDuplicate];
+
+#[derive(Clone, Debug, PartialEq, Eq, Hash, Serialize, Deserialize)]
+pub struct BigSt {
+    inst: usize,
+    named: Option<Named>,
+}
+
+pub struct M12Big<C: Suite> {
+    insts: Vec<Inst<C>>,
+}
+
+impl<C: Suite> M12Big<C> {
+    pub fn new(_tier: Tier, seed: u64) -> Self {
+        let mut insts = vec![];
+        // thresholds beyond the block sizes of fixed scratch buffers (32, 64, 128) and at the identifier limit
+        for (si, (t, n)) in [(65usize, 70usize), (65, 65), (33, 40), (129, 200), (2, 255), (255, 255)].into_iter().enumerate() {
+            let s = SCHEMES[si % 3];
+            let sk = SecretKey::<C>::from_hash(format!("c12-big-{}-{}", t, n));
+            let shares = sk.split_with_rng(t, n, rand_chacha::ChaCha20Rng::from_seed(data32(seed, &format!("c12-big-split-{}-{}", t, n)))).unwrap();
+            let pks = shares.iter().map(|x| x.public_key().unwrap()).collect();
+            let msg = msg_of(seed, 40, 3);
+            let ent = entropy_stream(seed, &format!("c12-big-{}-{}", t, n), 2);
+            let pk = sk.public_key();
+            let (ct, ct2) = with_env(ent, None, || (pk.sign_crypt(lib_scheme(s), &msg), pk.sign_crypt(lib_scheme(s), &msg))).unwrap();
+            let ds = shares.iter().map(|x| ct.create_decryption_share(x).unwrap()).collect();
+            insts.push(Inst { s, t, n, msg, shares, pks, ct, ct2, ds, ds2: vec![] });
+        }
+        M12Big { insts }
+    }
+}
+
+impl<C: Suite> Model for M12Big<C> {
+    type State = BigSt;
+    type Action = Named;
+    fn name(&self) -> String {
+        format!("c12-threshold-signcrypt-large/{}", C::G)
+    }
+    fn init(&self) -> Vec<BigSt> {
+        (0..self.insts.len()).map(|i| BigSt { inst: i, named: None }).collect()
+    }
+    fn actions(&self, st: &BigSt) -> Vec<Named> {
+        if st.named.is_some() {
+            vec![]
+        } else {
+            NAMED.to_vec()
+        }
+    }
+    fn step(&self, st: &BigSt, a: &Named) -> Option<BigSt> {
+        Some(BigSt { inst: st.inst, named: Some(*a) })
+    }
+    fn describe(&self, st: &BigSt) -> String {
+        let it = &self.insts[st.inst];
+        format!("{} ciphertext scheme {} ({},{}) decryption shares {:?}: decrypt_with_shares / SignCryptDecryptionKey::from_shares", C::G, it.s.name(), it.t, it.n, st.named)
+    }
+    fn required_outcomes(&self) -> Vec<String> {
+        vec!["large:qualified:message".into(), "large:below-threshold:not-the-message".into(), "large:duplicate:refused".into()]
+    }
+    fn check(&self, st: &BigSt, o: &mut Obs) {
+        let Some(named) = st.named else {
+            // root: every participant's share verifies against its own key share and not against its neighbour's
+            let it = &self.insts[st.inst];
+            o.nontrivial = true;
+            for i in [0usize, it.t - 1, it.n - 1] {
+                let v = guard(|| it.ds[i].verify(&it.pks[i], &it.ct));
+                o.expect(&format!("C12:large:share-verify-own:{}", C::G), matches!(v, Ok(Ok(()))), "accept", verdict(&v));
+                let v = guard(|| it.ds[i].verify(&it.pks[(i + 1) % it.n], &it.ct));
+                o.expect(&format!("C12:large:share-verify-other-key:{}", C::G), matches!(v, Ok(Err(_))), "reject", verdict(&v));
+                let v = guard(|| it.ds[i].verify(&it.pks[i], &it.ct2));
+                o.expect(&format!("C12:large:share-verify-other-ciphertext:{}", C::G), matches!(v, Ok(Err(_))), "reject", verdict(&v));
+            }
+            o.calls(9);
+            return;
+        };
+        o.nontrivial = true;
+        let it = &self.insts[st.inst];
+        let (t, n) = (it.t, it.n);
+        let ds: Vec<SignDecryptionShare<C>> = match named {
+            Named::FirstT => it.ds[..t].to_vec(),
+            Named::LastT => it.ds[n - t..].to_vec(),
+            Named::FirstTReversed => it.ds[..t].iter().rev().cloned().collect(),
+            Named::FirstTMinus1 => it.ds[..t - 1].to_vec(),
+            Named::All => it.ds.clone(),
+            Named::Strided => {
+                let mut idx: Vec<usize> = (0..n).step_by(2).collect();
+                let mut back = n;
+                while idx.len() < t {
+                    back -= 1;
+                    if !idx.contains(&back) {
+                        idx.push(back);
+                    }
+                }
+                idx.truncate(t.max(2));
+                idx.iter().map(|i| it.ds[*i].clone()).collect()
+            }
+            Named::AllPlusDuplicate => {
+                let mut v = it.ds.clone();
+                v.push(it.ds[0].clone());
+                v
+            }
+        };
+        let direct = guard(|| Option::<Vec<u8>>::from(it.ct.decrypt_with_shares(&ds)));
+        let viakey = guard(|| SignCryptDecryptionKey::<C>::from_shares(&ds).map(|key| Option::<Vec<u8>>::from(key.decrypt(&it.ct))));
+        o.calls(2);
+        let (direct, viakey) = match (direct, viakey) {
+            (Ok(a), Ok(b)) => (a, b),
+            (a, b) => {
+                o.expect(&format!("C12:large:panic:{}:{:?}", C::G, named), false, "returns", &format!("{:?}/{:?}", a.err(), b.err()));
+                return;
+            }
+        };
+        let via_msg: Option<Vec<u8>> = viakey.as_ref().ok().cloned().flatten();
+        let got_direct = direct.as_ref() == Some(&it.msg);
+        let got_via = via_msg.as_ref() == Some(&it.msg);
+        let key = |what: &str| format!("C12:large:{}:{}:t{}n{}:{:?}", what, C::G, t, n, named);
+        match named {
+            Named::FirstTMinus1 => {
+                o.outcome(if !got_direct && !got_via { "large:below-threshold:not-the-message" } else { "large:below-threshold:the-message" });
+                o.expect(&key("below-threshold"), !got_direct && !got_via, "never the original message", "the message");
+            }
+            Named::AllPlusDuplicate => {
+                o.outcome(if viakey.is_err() { "large:duplicate:refused" } else { "large:duplicate:accepted" });
+                o.expect(&key("duplicate-behind-a-complete-set"), viakey.is_err(), "from_shares is Err", "Ok");
+            }
+            _ => {
+                o.outcome(if got_direct && got_via { "large:qualified:message" } else { "large:qualified:wrong" });
+                o.expect(&key("decrypt-with-shares-qualified"), got_direct, "the original message", &format!("{:?}", direct.as_ref().map(|m| m.len())));
+                o.expect(&key("combined-key-decrypt-qualified"), got_via, "the original message", &format!("{:?}", via_msg.as_ref().map(|m| m.len())));
+            }
+        }
+    }
+}
+
 fn depth_of<C: Suite>(_m: &M12<C>, s: &St) -> usize {
     s.seq.len() + s.fault.is_some() as usize
 }
@@ -297,6 +444,8 @@ pub fn models(tier: Tier, seed: u64) -> Vec<Box<dyn DynModel>> {
         v.push(bounded(M12::<Bls12381G1Impl>::new(tier, seed), 10));
         v.push(bounded(M12::<Bls12381G2Impl>::new(tier, seed), 10));
     }
+    v.push(bounded(M12Big::<Bls12381G1Impl>::new(tier, seed), 1));
+    v.push(bounded(M12Big::<Bls12381G2Impl>::new(tier, seed), 1));
     v.extend(crate::props::tsurf::models("C12", tier, seed));
     v
 }
